@@ -101,8 +101,17 @@ def observed_relation(img):
 
 def compare_relation(img):
     """None when `clip_layers`/`_has_clip_target` agree with the spec on the current tree, else a description."""
+    # FIRST, and before any public accessor is touched, the private flag exactly as `Compositor.apply` reads it
+    # (`layer.clipping_layer and layer._has_clip_target`): a lazily refreshed relation must be fresh for the
+    # compositor too, not only for whoever asks `clip_layers` first.
+    gate = {id(l): bool(l._has_clip_target) for l in db.walk(img)}
     exp = expected_relation(img)
     order = {id(l): k for k, l in enumerate(db.walk(img))}
+    for l in db.walk(img):
+        e_run, e_t = exp[id(l)]
+        if l.clipping_layer and e_t != gate[id(l)]:
+            return {"layer": order[id(l)], "what": "has_clip_target (as the compositor reads it, before clip_layers is touched)",
+                    "observed": gate[id(l)], "expected": e_t}
     for l in db.walk(img):
         e_run, e_t = exp[id(l)]
         o_run, o_t = list(l.clip_layers), bool(l._has_clip_target)
@@ -295,7 +304,7 @@ def run_history(recipe_nodes, mode, ops, seed):
 
 # ---- the check -------------------------------------------------------------------------------------
 def run(ctx: core.Run):
-    gen = extract_c15.gen_clip_modes(ctx)
+    gen = ctx.regenerate(extract_c15.gen_clip_modes)
     ctx.prove(["PsdVerif.Props.C15"])
     ctx.trusted_base += [
         "Lean 4.33 kernel; axioms allowed: propext, Classical.choice, Quot.sound (audited per theorem)",
